@@ -22,7 +22,7 @@ func propC09() Property {
 		Explanation: "Panic-obligation ledger over the untrusted-input cone (functions reachable from ParseMessage*, exported FieldMap/RepeatingGroup accessors, parser.ReadMessage, both Validators, ParseSettings, datadictionary.Parse/ParseSrc, stateMachine.Incoming, acceptor first-message handling). " +
 			"K1: every index/slice operation in the cone that gc's prove pass could not show in range must be discharged by the checker's guard prover, by the FieldMap field invariant (every stored field has length >= 1, itself checked at every store), or by a reviewed entry keyed by function + structural signature including the FRESH dominating guards (a removed, weakened or stale guard reopens the entry). " +
 			"K2: a pointer that may be the nil constant is not dereferenced without a dominating non-nil test. K3: an interface variable assigned only in switch arms and invoked afterwards covers the domain of the switch key (FIX field types of all shipped specs). " +
-			"K4: explicit panics and single-result type assertions in the cone are enumerated and each is reviewed. K5: every recursive cycle in the cone has a mark-before-recurse guard or is a reviewed structural recursion. K6: a parse error in Incoming changes no state and still re-arms the peer timer.",
+			"K4: explicit panics and single-result type assertions in the cone are enumerated and each is reviewed. K5: every recursive cycle in the cone has a mark-before-recurse guard or is a reviewed structural recursion. K6: a parse error in Incoming changes no state and still re-arms the peer timer. K2 also follows a possibly-nil pointer that is passed as an argument to an in-module function that dereferences the parameter — directly, through a further callee, or after putting it into a slice literal whose elements are then used. K1/K1b obligations of an unexported helper over its parameters (a block extracted from a reviewed function) are discharged at its call sites: by a guard that dominates the call, or by the reviewed entry of the calling function for the substituted expression.",
 		NotDecided: "termination of scanning loops under arbitrary io.Readers (hangs), integer overflow of declared lengths, panics inside third-party/standard-library code, out-of-memory.",
 		Trusted:    []string{"gc's prove pass (go build -gcflags=-d=ssa/check_bce/debug=1) for bounds checks it eliminates", "c09_reviewed.json entries, each with a written reason"},
 		Rules: []RuleDef{
@@ -1289,18 +1289,99 @@ func phiMayBeNil(v ssa.Value, seen map[ssa.Value]bool) bool {
 
 // derefsParam0: callee dereferences its receiver/first parameter without a nil guard.
 func (p *Prog) derefsParam(fn *ssa.Function, idx int) bool {
-	if fn == nil || fn.Blocks == nil || idx >= len(fn.Params) {
+	return p.derefsParamDepth(fn, idx, 0)
+}
+
+func (p *Prog) derefsParamDepth(fn *ssa.Function, idx int, depth int) bool {
+	if fn == nil || fn.Blocks == nil || idx >= len(fn.Params) || depth > 3 {
 		return false
 	}
 	par := fn.Params[idx]
 	res := false
 	for _, r := range *par.Referrers() {
+		in, _ := r.(ssa.Instruction)
+		if in == nil {
+			continue
+		}
+		guarded := func() bool {
+			return p.ReachCond(in.Block()).Implies(func(a *Atom) bool { return a.Rel == "!=" && a.L.Val == par && a.R.IsNil() })
+		}
 		switch x := r.(type) {
-		case *ssa.FieldAddr, *ssa.UnOp, *ssa.IndexAddr:
-			in := x.(ssa.Instruction)
-			d := p.ReachCond(in.Block())
-			if !d.Implies(func(a *Atom) bool { return a.Rel == "!=" && a.L.Val == par && a.R.IsNil() }) {
+		case *ssa.FieldAddr, *ssa.IndexAddr:
+			if !guarded() {
 				res = true
+			}
+		case *ssa.UnOp:
+			if x.Op == token.MUL && !guarded() {
+				res = true
+			}
+		case ssa.CallInstruction:
+			// handed on to a callee that dereferences it
+			cc := x.Common()
+			if cal := cc.StaticCallee(); cal != nil && p.InModule(cal) {
+				for i, a := range cc.Args {
+					if a == ssa.Value(par) && p.derefsParamDepth(cal, i, depth+1) && !guarded() {
+						res = true
+					}
+				}
+			}
+		case *ssa.Store:
+			// put into a local array / slice literal whose elements are then used: x := []*T{a, par}; for _, e := range x { e.f() }
+			if x.Val != ssa.Value(par) {
+				continue
+			}
+			ia, ok := x.Addr.(*ssa.IndexAddr)
+			if !ok {
+				continue
+			}
+			al, ok := ia.X.(*ssa.Alloc)
+			if !ok {
+				continue
+			}
+			var elems []ssa.Value
+			var collect func(v ssa.Value, d int)
+			collect = func(v ssa.Value, d int) {
+				if d > 3 || v.Referrers() == nil {
+					return
+				}
+				for _, r2 := range *v.Referrers() {
+					switch y := r2.(type) {
+					case *ssa.Slice:
+						collect(y, d+1)
+					case *ssa.IndexAddr:
+						if y != ia {
+							for _, r3 := range *y.Referrers() {
+								if ld, ok := r3.(*ssa.UnOp); ok && ld.Op == token.MUL {
+									elems = append(elems, ld)
+								}
+							}
+						}
+					}
+				}
+			}
+			collect(al, 0)
+			for _, e := range elems {
+				for _, r4 := range *e.Referrers() {
+					switch z := r4.(type) {
+					case *ssa.FieldAddr:
+						if z.X == e {
+							res = true
+						}
+					case *ssa.UnOp:
+						if z.Op == token.MUL && z.X == e {
+							res = true
+						}
+					case ssa.CallInstruction:
+						zc := z.Common()
+						if cal := zc.StaticCallee(); cal != nil && p.InModule(cal) {
+							for i, a := range zc.Args {
+								if a == e && p.derefsParamDepth(cal, i, depth+1) {
+									res = true
+								}
+							}
+						}
+					}
+				}
 			}
 		}
 	}
@@ -1345,6 +1426,14 @@ func c09K2(c *Ctx) {
 						if p.derefsParam(cal, 0) {
 							deref = true
 							what = "receiver of " + FuncName(cal) + " (dereferences its receiver)"
+						}
+					}
+					if cal := cc.StaticCallee(); cal != nil && p.InModule(cal) && !deref {
+						for i, a := range cc.Args {
+							if a == ssa.Value(phi) && (i > 0 || cal.Signature.Recv() == nil) && p.derefsParam(cal, i) {
+								deref = true
+								what = "argument of " + FuncName(cal) + " (which dereferences it, directly or through a callee)"
+							}
 						}
 					}
 				}
